@@ -21,7 +21,7 @@ PID = "C09"
 RULE = ("states = meshes reachable from a parser output by histories over {generate_mesh x8, Frame, hold, release, gc, remove_cell x2}; de-duplicated on the full mesh snapshot; "
         "non-trivial = history contains an edit; classes = (source, vertices, edges, cells, history signature)")
 BOUND = {"quick": "depth 3 from 17 initial meshes (WKT polygons with two nearly coincident corners, direct k=0/k=2, SE dump, WKT, tessellation, sub-tissue with hole, lens, rasterised skeletons: minimal, non-minimal, with reduce_amount, with a detached ring / pair of cells) + depth 2 from every connected sub-tissue of a 7-cell base (k=0 and k=2) + depth 1 from the skeleton raster with ONE staircase corner (an L-shaped step on an interface), for every one of its 220 possible positions",
-         "thorough": "depth 4 from 8 initial meshes, depth 2 from every sub-tissue of an 11-cell base, shipped dumps and skeleton depth 2; depth 2 from every single-staircase-corner variant of two rasters"}
+         "thorough": "depth 4 from 8 initial meshes, depth 2 from every sub-tissue of an 11-cell base, shipped dumps and skeleton depth 2; depth 2 from every single-staircase-corner variant of two rasters, depth 1 from every PAIR of staircase corners of the smaller raster (1653 images)"}
 ASSUMPTIONS = ["Vertex.own_big_edges is not constrained by the statement (reported as a diagnostic only)",
                "a call that raises leaves no state; SegmentationArtifactException (and the ValueError that chained contractions produce) is a refusal, not a verdict",
                "holding a shallow copy of the dictionaries models a user who keeps the previous mesh alive (so that __del__ of replaced objects runs late)"]
@@ -167,9 +167,11 @@ def initial_mesh(src):
                     big[y0:y0 + n + 1, x0 + n // 2] = 1
             img = big
         if kind == "raster_corner":
-            cy, cx = staircase_corners(img)[src[2]]
+            allc = staircase_corners(img)
             img = img.copy()
-            img[cy, cx] = 1
+            for ci in (src[2] if isinstance(src[2], list) else [src[2]]):      # a list: several staircase corners at once
+                cy, cx = allc[ci]
+                img[cy, cx] = 1
         full = np.zeros((img.shape[0] + 4, img.shape[1] + 4), np.uint8)
         full[2:-2, 2:-2] = img * 255
         full[0, :] = 255
@@ -349,7 +351,10 @@ def build(tier, seed):
              ["skeleton", REPO + "/examples/data/in_vivo/t_1.tif"]]
     spec2 = [4, 4, 0, 0, 30]
     corners += [["raster_corner", spec2, i] for i in range(n_staircase_corners(spec2))]
+    n2 = n_staircase_corners(spec2)
+    pairs = [["raster_corner", spec2, [i, j]] for i in range(n2) for j in range(i + 1, n2)]
     return [MeshHistories("parsers-depth4", more, 4),
             MeshHistories("staircase-corners-all-depth2", corners, 2, light),
+            MeshHistories("staircase-corner-pairs-all-depth1", pairs, 1, [["gm", 4, True], ["frame"]]),
             MeshHistories("subtissues-depth2", [["direct", "v5x5", S, k] for S in subs2 for k in (0, 2)], 2, light),
             MeshHistories("shipped-depth2", files, 2, light)]
